@@ -1,10 +1,11 @@
-// Shim world for the WHOLE Searcher::visit_dir and ok_to_visit_dir (Engine F; C01 / C06 / C18): a scripted file system of ten nodes, no heap.
+// Shim world for the WHOLE Searcher::visit_dir and ok_to_visit_dir (Engine F; C01 / C06 / C18): a scripted file system (six-node and 13-node variants), no heap.
 //   0 = the root directory          1 = dir  in 0 (level 1)      2 = file in 0 (level 1; a zip archive with two members)
 //   3 = file in 1 (level 2)         4 = dir  in 1 (level 2)      5 = file in 4 (level 3)
 //   6 = symlink in 4 (level 3) -> directory 1, absolute target: a link to an ancestor (cycle)
 //   7 = symlink in 0 (level 1) -> directory 8, RELATIVE target (relative to the directory of the link)
 //   8 = a directory outside the root that lies LESS deep than the root        9 = file in 8
 //  10 = symlink in 0 (level 1) -> file 2 (a link to a non-directory)           11 = dangling symlink in 0 (level 1)
+//  12 = symlink in 4 (level 3) -> the search ROOT itself, absolute target
 // Paths are node ids; read_dir lists the children in the order above; check_file is a recorder that counts in `found` like the real one.
 use core::mem::MaybeUninit;
 pub use crate::query::TraversalMode;
